@@ -214,10 +214,17 @@ func goid() string {
 
 // Yield is a scheduling point. Natively, a named thread waits here for its turn in the
 // recorded schedule (unnamed goroutines and exhausted schedules pass freely).
-func Yield() { gate(nil) }
+func Yield() { gateAt("", nil) }
 
-// gate waits for the calling thread's turn and runs f (if any) before the next thread may pass.
-func gate(f func()) {
+// YieldAt is Yield with a label for the program point. Natively a goroutine that was not started
+// by zzverif.Go (for instance a scan worker inside the code under test) is identified in the
+// recorded schedule by "?:"+point, a named thread by name+":"+point.
+func YieldAt(point string) { gateAt(point, nil) }
+
+func gate(f func()) { gateAt("", f) }
+
+// gateAt waits for the calling thread's turn and runs f (if any) before the next thread may pass.
+func gateAt(point string, f func()) {
 	mu.Lock()
 	load()
 	sched := rp.Schedule
@@ -225,15 +232,26 @@ func gate(f func()) {
 	id := goid()
 	gmu.Lock()
 	defer gmu.Unlock()
-	if f != nil {
-		defer f()
+	ran := false
+	run := func() {
+		if f != nil && !ran {
+			ran = true
+			f()
+		}
 	}
+	defer run()
 	if len(sched) == 0 {
 		return
 	}
 	name := gnames[id]
 	if name == "" {
-		return
+		if point == "" {
+			return
+		}
+		name = "?"
+	}
+	if point != "" {
+		name += ":" + point
 	}
 	deadline := time.Now().Add(5 * time.Second)
 	for gpos < len(sched) && sched[gpos] != name {
@@ -245,7 +263,36 @@ func gate(f func()) {
 	if gpos < len(sched) {
 		gpos++
 	}
+	run()
 	gcond.Broadcast()
+	// In the recorded execution this thread may have been preempted after this point: the gate
+	// passages of other threads recorded before this thread's own next passage happened first.
+	// Hold the thread here until they have happened (bounded wait), so that what follows the
+	// gate runs after them as it did in the recorded execution.
+	who := name
+	if i := strings.IndexByte(name, ':'); i >= 0 {
+		who = name[:i]
+	}
+	next := len(sched)
+	for j := gpos; j < len(sched); j++ {
+		e := sched[j]
+		if e == who || strings.HasPrefix(e, who+":") {
+			next = j
+			break
+		}
+	}
+	if next > gpos {
+		hold := time.Now().Add(time.Duration(Param("native_hold_ms", 300)) * time.Millisecond)
+		for gpos < next && time.Now().Before(hold) {
+			waitCond(20 * time.Millisecond)
+		}
+		if gpos >= next {
+			// let the un-gated tail of the other threads' steps finish
+			gmu.Unlock()
+			time.Sleep(time.Duration(Param("native_grace_ms", 5)) * time.Millisecond)
+			gmu.Lock()
+		}
+	}
 }
 
 func waitCond(d time.Duration) {
